@@ -9,53 +9,66 @@ CLAIMED = {
     "C01": ("4 C01", "classification of the step records built by extract_contractions (element kinds, flag/argument/"
             "permutation consistency, can_dot guard of the tensordot branch) against the executor's use of the unpacked "
             "positions; convention analysis of the per-node recipes (axes pairing, operand order of the equation, "
-            "direction of the tensordot permutation); shared root-order and children-first rules"),
+            "direction of the tensordot permutation); shared root-order and children-first rules"
+            "; re-lettering of the pairwise equation (injective map); shared C11 layout/executor clauses of the default implementation; shared symbolic check of the move evaluator"),
     "C02": ("4 C02", "ast/CFG cache-invalidation analysis: key registry + computed getter dependency graph, "
             "must-pass-through of reset_contraction_indices after node removal, root-order writer guard, who-may-write, "
             "memo-key carrier analysis of the compiled-contractor cache, purity of inplace=False transformations "
             "(writes and CFG-reachable stale reads of the original)"),
     "C03": ("4 C03", "def-use provenance of flops/size getters, must-dependence of extensive totals on the slice multiplicity, "
-            "executed-equals-reported clauses (contractor memo key, sliced-leaf invalidation)"),
+            "executed-equals-reported clauses (contractor memo key, sliced-leaf invalidation)"
+            "; symbolic evaluation (monomials in the index dimensions) of remove_ind's in-place deltas; integer-arithmetic discipline of stored figures"),
     "C04": ("4 C04", "attribute-completeness and aliasing analysis of set_state_from/copy, who-may-write and "
-            "sign-symmetry of running totals, CFG dominance of contract_stats before deltas"),
+            "sign-symmetry of running totals, CFG dominance of contract_stats before deltas"
+            "; symbolic evaluation of remove_ind's in-place deltas and of the annealing move evaluator (case analysis left/right/both); guard agreement of reset, refill and flag of each recomputed total"),
     "C05": ("4 C05", "pairing/typestate of the path simulator's single-use ids (every recorded step pops its ids and adds one "
             "node; who-may-write the id counter and node table), CFG must-pass-through of optimize_remaining_by_size "
             "before every hand-out of a path, path-sensitive guard of flops-limited runs, completion branches of the "
-            "tree builders on every path, guard of the one-community partition result"),
+            "tree builders on every path, guard of the one-community partition result"
+            "; coverage of the leftover heap; dominance of every builder return by its completing loop"),
     "C06": ("4 C06", "write-discipline of the sliced-index table (sorted rebuild only, SliceInfo field order) and pairing "
             "of sliced_inputs updates, chunk-key/slice-number agreement, exponent-aware combination sites"),
     "C07": ("4 C07", "CFG guard dominance of the forbidden-index test, structural form of the target filter, sibling "
-            "agreement of the three target encodings"),
+            "agreement of the three target encodings"
+            "; symbolic evaluation of the cost model's arithmetic (initial totals, per-index reductions, removal deltas, stored entry, figures) against the tree's definitions; copy completeness of the model; decision table of the allow_outer modes; flag/target agreement of every target test"),
     "C08": ("4 C08", "post-dominance of stats refresh after in-place post-processing, sibling cross-check of objectives' "
-            "recorded keys, guarded best update and once-per-trial bookkeeping on the CFG"),
+            "recorded keys, guarded best update and once-per-trial bookkeeping on the CFG"
+            "; effect analysis of the shared trial-function wrappers and objectives (no per-trial state)"),
     "C09": ("4 C09", "abstract interpretation of the six sibling step-cost functions into cost signatures compared with "
             "the objectives' definitions and with the name dispatch; CFG/guard analysis of the DP (memo overwrite "
             "guard and tuple layout, sieve skip, early exits, outer-product flag); partial evaluation of the "
             "bipartition range expressions; must-pass-through of the cap widening"),
     "C10": ("4 C10", "typestate of the depth-first traversal's ready set and guard of its yield; sibling cross-check of the "
             "recycled-id protocol (descending removal, positions before removal, append) over every pop/append loop; "
-            "CFG pairing of single-assignment id counters with their uses; linear-form check of get_ssa_path's id"),
+            "CFG pairing of single-assignment id counters with their uses; linear-form check of get_ssa_path's id"
+            "; def-use provenance of converted paths (caller-supplied paths need the input count); positional del treated as removal"),
     "C11": ("4 C11", "abstract interpretation of the batched-matmul planner's layout expressions into sequences of "
             "index-group symbols (groups identified by their filling conditions) checked against the matmul contract; "
             "direction analysis of every transposition tuple; stage/position agreement of the single-operand planner "
-            "and executor by construction/usage kinds; exception-type and normalisation discipline of tensordot's axes"),
+            "and executor by construction/usage kinds; exception-type and normalisation discipline of tensordot's axes"
+            "; stage extraction of the executor (guard, polarity, order) matched against the plan by construction/usage roles; structural clauses of the pure-multiplication plan and of the tensordot equation; permutation guard of transposition-only plans"),
     "C12": ("4 C12", "structural and partially-evaluated checks of the front end's rewrites: statement-order and guard of "
             "the fresh-symbol choice, partial evaluation of the ellipsis slice and of the interleaved index expressions, "
             "sibling agreement of the implicit-output implementations, guard/direction of the single-operand fast paths, "
-            "def-use check that every label-carrying argument passes the one renaming map"),
+            "def-use check that every label-carrying argument passes the one renaming map"
+            "; form-independent partial evaluation of the interleaved form (loop or strided slices); routine used for implicit outputs of the label interface"),
     "C13": ("4 C13", "cache-key completeness/injectivity by def-use dependence, sibling TypeError fallback, purity and "
-            "result-immutability of lru_cached parsers, array-taint of cached callables"),
+            "result-immutability of lru_cached parsers, array-taint of cached callables"
+            "; computed layering of memo functions below cache tables and joint invalidation"),
     "C14": ("4 C14", "fingerprint determinism/coverage by dependence analysis, cache policy as CFG path properties, "
-            "writer/reader record-schema agreement"),
+            "writer/reader record-schema agreement"
+            "; overwriting publish of the durable store; sibling agreement of wrapper and sub-optimizer constructors on the effective objective"),
     "C15": ("4 C15", "atomic-publish typestate of every durable write (temp sibling + os.replace post-dominating), "
-            "reader maps corrupt entries to KeyError on all paths"),
+            "reader maps corrupt entries to KeyError on all paths"
+            "; writer never deletes an entry path; presence decided by the entry file alone"),
     "C16": ("4 C16", "thread-keyed / content-addressed store discipline of per-query state and carry-over (result-"
             "carrying attribute) analysis over the call graph"),
     "C17": ("4 C17", "seed plumbing over the resolved call graph, no global-RNG use under seeded entries, "
             "named-preset resolution (register_preset table) for sub-optimizers of seeded operations, "
             "flow-sensitive hash-ordered iteration classification"),
     "C18": ("4 C18", "sibling cross-check of the index-survival predicates and appearance tables of the cost simulators; "
-            "uncompensated index drop reachability"),
+            "uncompensated index drop reachability"
+            "; symbolic case analysis (index on left / right / both) of the annealing move evaluator against the survival rule"),
     "C19": ("4 C19", "every per-slice combination site uses the exponent-aware adder; normalise/accumulate pairing; "
             "rescale-before-stack dominance and form; scale measure and zero sentinel; option reaches every expression branch"),
     "C20": ("4 C20", "taint of the bond cap chi (reaches sizes only through min()/comparison); sibling cross-checks of "
@@ -66,11 +79,11 @@ CLAIMED = {
 LEVEL_TEXT = {
     "C01": "conventions only: the record protocol between tree and executor is consistent (flag, argument kind, permutation, operand order, can_dot guard, preprocessing first), the recipes share one left/right convention and permutation direction, the root order is the declared output's and children are executed first; equality of the computed arrays with einsum is NOT decided",
     "C02": "for every function that can restructure or slice a tree (all sites, hence all histories through them) the cached per-node recipes are invalidated as the computed dependency graph requires; value equality itself is numerical and not decided",
-    "C03": "the definitions of flops/size and the slice multiplicity of every reported total are read off the getters by def-use dependence (must-dependence on every path); the arithmetic on runtime sizes is not decided",
-    "C04": "every attribute of a tree is copied safely, running totals are adjusted symmetrically by their owners only, and no slice-dependent figure is first computed after the sliced set changed — for all sites; integer arithmetic is not decided",
+    "C03": "the definitions of flops/size and the slice multiplicity of every reported total are read off the getters by def-use dependence (must-dependence on every path); the arithmetic on runtime sizes is not decided; slicing rescales per-step and total figures by the definitional factors",
+    "C04": "every attribute of a tree is copied safely, running totals are adjusted symmetrically by their owners only, and no slice-dependent figure is first computed after the sliced set changed — for all sites; integer arithmetic is not decided; the in-place deltas of slicing are the definitional differences",
     "C05": "protocol facts only: ids of the path simulator are single-use and consumed by removal, every finder built on it joins leftover parts before handing a path out and never hands out a flops-limited run, from_path and the partition builders join what is left on every path; which contraction is found and that partitioners label every node is NOT decided",
     "C06": "every writer of the sliced-index table keeps output indices first and the slice count is multiplied/divided by the recorded size; stride arithmetic is runtime and not decided",
-    "C07": "forbidden indices are excluded on every path, whatever search() returns passes the unscaled target filter, the cost model slices only indices it knows against its own baseline; equality of predicted and real costs is not decided",
+    "C07": "forbidden indices are excluded on every path, whatever search() returns passes the unscaled target filter, the cost model slices only indices it knows against its own baseline; equality of predicted and real costs is not decided; the cost model's own arithmetic equals the tree's cost definitions for one abstract contraction (symbolically)",
     "C08": "the returned trial is the arg-min of the recorded scores on every schedule (each reported trial is compared, guarded update, once-per-trial bookkeeping) and recorded costs are refreshed after every in-place post-processing; cost values are not decided",
     "C09": "necessary conditions of optimality only: each objective name is minimised with a step cost whose derived signature equals the objective's definition, the per-subgraph memo keeps the better entry, the sieve skips only on the new score against a cap that grows every round, every bipartition size is enumerated, search_outer is honoured; that the result is the global minimum is NOT decided",
     "C10": "conventions only: every emitted path is produced children-first, every implementation of the recycled-id format removes operands in descending order and appends the result, every single-assignment id counter starts at the number of inputs and advances once per emitted step on every path; equality of round trips is NOT decided",
